@@ -206,6 +206,9 @@ func (e *Exec) doAlloc(fr *Frame, st *State, x *ssa.Alloc) Value {
 		return loc
 	}
 	r := e.alloc(st, "new")
+	if isBigPtr(x.Type()) && bigName(x.Type()) == "Int" {
+		e.bigSet(st, r, IntLit(0)) // the zero value of big.Int is 0
+	}
 	switch et.Underlying().(type) {
 	case *types.Struct:
 		e.storeStruct(st, r, et, e.zeroOf(et))
@@ -679,6 +682,9 @@ func (e *Exec) exactUse(fr *Frame, st *State, v ssa.Value, what string) {
 		return
 	}
 	e.oblige(st, "exact:"+what, render(v, 0), Eq(m, ex), e.posOf(e.curIn), m, ex)
+	// assert-then-assume: what follows is verified for the executions that did not wrap here
+	// (the wrap itself is the obligation above)
+	e.assume(st.pc, Eq(m, ex))
 }
 
 func (e *Exec) exactType(t types.Type) bool {
@@ -788,7 +794,7 @@ func (e *Exec) typeAssert(fr *Frame, st *State, x *ssa.TypeAssert) (Value, bool)
 			val = Ite(ok, xv, &Term{"nil-obj", SObj})
 		} else {
 			val = e.unboxGuarded(xv, x.AssertedType, And(st.pc, ok), ok)
-			e.assumeUnboxedExists(st, val, And(st.pc, ok))
+			e.assumeUnboxedExists(st, val, And(st.pc, ok), x.AssertedType)
 		}
 		return &Tuple{Vs: []Value{val, ok}}, true
 	}
@@ -798,14 +804,25 @@ func (e *Exec) typeAssert(fr *Frame, st *State, x *ssa.TypeAssert) (Value, bool)
 		return xv, true
 	}
 	v := e.unbox(xv, x.AssertedType, st.pc)
-	e.assumeUnboxedExists(st, v, st.pc)
+	e.assumeUnboxedExists(st, v, st.pc, x.AssertedType)
 	return v, true
 }
 
 // assumeUnboxedExists: a slice / pointer held by an existing object was allocated before now.
-func (e *Exec) assumeUnboxedExists(st *State, v Value, pc *Term) {
-	if t, ok := v.(*Term); ok && t.Sort == SSl {
+func (e *Exec) assumeUnboxedExists(st *State, v Value, pc *Term, ty types.Type) {
+	t, ok := v.(*Term)
+	if !ok {
+		return
+	}
+	if t.Sort == SSl {
 		e.assume(pc, Lt(App(SInt, "sl-id", t), e.heapRead(st, "$alloc", SInt)))
+		return
+	}
+	switch ty.Underlying().(type) {
+	case *types.Pointer, *types.Map, *types.Chan:
+		if t.Sort == SInt {
+			e.assume(pc, Lt(t, e.heapRead(st, "$alloc", SInt)))
+		}
 	}
 }
 
